@@ -256,6 +256,26 @@ def _is_eid(p):
 DCK.ANALYSES['C19'] = an_C19
 
 
+def verify_no_shared_state(run, tier):
+    """a supplied table can only be honoured by every parser if no decoding state is shared between parser objects:
+    the parser classes must not keep mutable class-level containers (frame condition on class attributes)"""
+    sess = Session()
+    for modname, cname in (('pykdebugparser.traces_parser', 'TracesParser'), ('pykdebugparser.pykdebugparser', 'PyKdebugParser'),
+                           ('pykdebugparser.kd_buf_parser', 'KdBufParser'), ('pykdebugparser.callstacks_parser', 'CallstacksParser')):
+        cls = sess.module(modname).ns[cname]
+        bad = [k for k, v in cls.attrs.items() if isinstance(v, (PDict, PList)) or type(v).__name__ in ('SymMapM',)]
+        ob = 'C19/no-state-shared-between-parsers/%s' % cname
+        fq = '%s:%s' % (modname, cname)
+        if not bad:
+            run.add(ob, 'proved', 'class declaration: no mutable class-level container', 0, fq)
+        else:
+            out = native({'kind': 'supplied_table_case'})
+            run.add(ob, 'refuted', 'class declaration', 0, fq, 'class-level mutable state: %s' % bad)
+            run.violation(ob, {'request': {'kind': 'supplied_table_case'}, 'native': out, 'solver_output': 'class-level containers %s' % bad},
+                          bool(out.get('violates')), what='%s keeps decoding state in class-level containers %s shared by all parser objects' % (cname, bad))
+    run.hashes.update(sess.repo.hashes)
+
+
 def run_check(run, tier):
     run.pending_failures = []
     run.trusted += ['pyvc interpreter', 'z3 5.1',
@@ -265,6 +285,12 @@ def run_check(run, tier):
                         'most of clause (a) lives in the string axioms above; CrossHair is not used']
     verify_text(run, tier)
     verify_supplied(run, tier)
+    verify_no_shared_state(run, tier)
+    out = native({'kind': 'supplied_table_case'})
+    run.bounded.append({'what': 'native scenario: the same stream decoded by two parser objects under two different supplied tables', 'found': bool(out.get('violates'))})
+    if out.get('violates'):
+        run.add('C19/bounded/two-tables-two-parsers', 'refuted', 'native scenario', 0, 'pykdebugparser.traces_parser:TracesParser')
+        run.violation('C19/bounded/two-tables-two-parsers', {'request': {'kind': 'supplied_table_case'}, 'native': out, 'solver_output': 'native scenario'}, True, what=out.get('what', ''))
     recs, _ = DCK.run_pool(run, 'C19')
     DCK.absorb(run, recs)
     for ob, status, detail in run.pending_failures:
